@@ -382,7 +382,7 @@ func main() {
 		if c.Scenario != "" {
 			schedrun.Build(false)
 			cj, _ := json.Marshal(c.Choices)
-			out, err := exec.Command(filepath.Join(ev.Root, ".work", "bin", "sched"), "replay", c.Scenario, string(cj)).CombinedOutput()
+			out, err := exec.Command(filepath.Join(ev.Work(), "bin", "sched"), "replay", c.Scenario, string(cj)).CombinedOutput()
 			fmt.Print(string(out))
 			if err != nil {
 				r.Violation("sched/"+schedrun.Family(c.Scenario)+"/"+c.Kind, "replayed schedule violates: "+string(out), c)
